@@ -72,6 +72,28 @@ def parent_expr(kind: str, w: int):
     elif kind == "PortRef-unconnected":
         insts.append({"name": "u", "kind": "single", "of": ["leaf", refsem.wleaf(w)], "tag": 7, "conns": {}})
         e = ["pref", "u", "p"]
+    elif kind == "PortRef-bref":
+        # a port reference whose port is tied to a bundle member (still a reference when slices are resolved)
+        bdefs[f"BW{w}"] = {"sigs": [["m", w, "sig"], ["k", 1, "sig"]], "subs": [], "roles": None}
+        buns.append(["bb", f"BW{w}"])
+        insts.append({"name": "u", "kind": "single", "of": ["leaf", refsem.wleaf(w)], "tag": 7, "conns": {"p": ["bref", "bb", ["m"]]}})
+        insts.append({"name": "uk", "kind": "single", "of": ["leaf", refsem.wleaf(1)], "tag": 9, "conns": {"p": ["bref", "bb", ["k"]]}})
+        e = ["pref", "u", "p"]
+    elif kind == "PortRef-slice":
+        sigs.append(["big", w + 2])
+        insts.append({"name": "u", "kind": "single", "of": ["leaf", refsem.wleaf(w)], "tag": 7, "conns": {"p": ["slice", ["sig", "big"], [1, 1 + w, None]]}})
+        e = ["pref", "u", "p"]
+    elif kind == "PortRef-cat":
+        if w < 2:
+            return parent_expr("PortRef", w)
+        sigs += [["ca", 1], ["cb", w - 1]]
+        insts.append({"name": "u", "kind": "single", "of": ["leaf", refsem.wleaf(w)], "tag": 7, "conns": {"p": ["cat", ["sig", "ca"], ["sig", "cb"]]}})
+        e = ["pref", "u", "p"]
+    elif kind == "PortRef-chain":
+        # u2.p is tied to the reference u.p, which is tied to nothing else: the slice's parent is a reference to a reference
+        insts.append({"name": "u", "kind": "single", "of": ["leaf", refsem.wleaf(w)], "tag": 7, "conns": {}})
+        insts.append({"name": "u2", "kind": "single", "of": ["leaf", refsem.wleaf(w)], "tag": 6, "conns": {"p": ["pref", "u", "p"]}})
+        e = ["pref", "u2", "p"]
     elif kind == "PortRef-array-each":
         # a reference into an instance array stands for the port's whole connection: n chunks, element 0 lowest
         if w < 2:
@@ -251,7 +273,7 @@ def all_indices(W: int, w: int):
 
 
 KINDS = ["Signal", "Slice", "Concat2", "Concat3", "ConcatNestedL", "ConcatNestedR", "PortRef", "PortRef-unconnected", "BundleRef",
-         "PortRef-array-each", "PortRef-array-unconnected", "PortRef-array-broadcast"]
+         "PortRef-array-each", "PortRef-array-unconnected", "PortRef-array-broadcast", "PortRef-bref", "PortRef-slice", "PortRef-cat", "PortRef-chain"]
 
 
 def rand_index(rng, W, n):
@@ -259,6 +281,10 @@ def rand_index(rng, W, n):
     x = rng.random()
     if x < 0.25:
         return rng.randint(-n, n - 1) if rng.random() < 0.85 else rng.randint(-2 * W, 2 * W)
+    if x < 0.45 and n >= 2:
+        # backward and strided ranges that select several bits (random bounds with a negative step rarely do)
+        return rng.choice([[None, None, -1], [None, None, -2], [n - 1, None, -1], [None, 0, -1], [-1, -n - 1, -1], [n - 1, 0, -1], [-1, None, -1],
+                           [None, None, 2], [1, None, 2], [None, -1, 2], [n - 1, None, -2], [None, 1 - n, -1]])
     a = rng.choice([None] + list(range(-n, n + 1))) if rng.random() < 0.85 else rng.randint(-2 * W, 2 * W)
     b = rng.choice([None] + list(range(-n, n + 1))) if rng.random() < 0.85 else rng.randint(-2 * W, 2 * W)
     s = rng.choice([None, None, 1, 1, -1, 2, -2, 3])
